@@ -1615,6 +1615,12 @@ class ContractionTree:
 
         # make sure all flops and size information has been populated
         tree.contract_stats()
+        # likewise the involved indices of every contraction: they are derived
+        # lazily from the children's current legs, so must be known before any
+        # legs are modified below (nodes created with precomputed legs, cost
+        # and size, e.g. by simulated annealing, don't have them yet)
+        for node in tree.children:
+            tree.get_involved(node)
 
         d = tree.size_dict[ind]
         if project is None:
